@@ -52,10 +52,18 @@ func fsStartSim(r *simcore.Run) {
 		os.Rename(tmp, path(n))
 		version[n] = v
 	}
-	if s.Draw(2, "a-exists-at-start") == 1 {
+	// src may name a single file instead of a directory
+	singleFile := s.Draw(3, "src-is-a-file") == 2
+	src := dir
+	if singleFile {
+		names = names[:1]
+		src = path("a.yaml")
+		write("a.yaml", 1)
+		r.Count("single-file-sources", 1)
+	} else if s.Draw(2, "a-exists-at-start") == 1 {
 		write("a.yaml", 1)
 	}
-	p := &Provider{src: dir, w: w, p: rec, l: zerolog.Nop(), configured: true}
+	p := &Provider{src: src, w: w, p: rec, l: zerolog.Nop(), configured: true}
 	defer p.Stop(context.Background())
 
 	type op struct {
@@ -64,7 +72,11 @@ func fsStartSim(r *simcore.Run) {
 	}
 	var plan []op
 	for i, n := 0, 1+s.Draw(3, "writes"); i < n; i++ {
-		plan = append(plan, op{simcore.Pick(s, names, "file"), []int{0, 0, 0, 1}[s.Draw(4, "op")]})
+		o := op{simcore.Pick(s, names, "file"), []int{0, 0, 0, 1}[s.Draw(4, "op")]}
+		if singleFile {
+			o.kind = 0 // the configured file is replaced by new versions (atomically, as editors and deployment tools do)
+		}
+		plan = append(plan, o)
 	}
 	sch := simsync.New(r)
 	sch.Quiet = true
@@ -135,7 +147,7 @@ func fsStartSim(r *simcore.Run) {
 			keys = append(keys, filepath.Base(k)+"="+v)
 		}
 		sort.Strings(keys)
-		r.Fail("no-convergence-after-faults-stopped", "file_system/change-during-start", "3s after the provider started and the last write (%v) the active rule sets still differ from the directory: %s", opsLog, why)
+		r.Fail("no-convergence-after-faults-stopped", "file_system/"+map[bool]string{false: "change-during-start", true: "single-file-replaced"}[singleFile], "3s after the provider started and the last write (%v) the active rule sets still differ from the directory: %s", opsLog, why)
 		return
 	}
 	r.Count("starts-converged", 1)
